@@ -66,10 +66,16 @@ const c15MaxInlineNodes = 160
 // c15Normalise inlines helper calls in the given packages (short names, in
 // dependency order). Returns a description of what was done (for evidence).
 func c15Normalise(c *Ctx, shorts []string, anchors map[string]bool) {
+	c15NormaliseOpt(c, shorts, anchors, true)
+}
+
+// c15NormaliseOpt: with propagate == false only helper calls are inlined (no canonicalisation of declarations,
+// no propagation of single-definition locals): the mode used by the global pre-normalisation.
+func c15NormaliseOpt(c *Ctx, shorts []string, anchors map[string]bool, propagate bool) {
 	counter := 0
 	// 0. the functions the rules look up by name are brought into the declaration form the rules know
 	//    (plain function <-> method on its first parameter); call sites follow
-	{
+	if propagate {
 		changedFiles := map[*packages.Package]map[*ast.File]bool{}
 		for _, sh := range shorts {
 			if pk := c.P.Pkg(sh); pk != nil {
@@ -133,6 +139,9 @@ func c15Normalise(c *Ctx, shorts []string, anchors map[string]bool) {
 				return
 			}
 			continue // inline again (helpers of helpers) before locals are propagated
+		}
+		if !propagate {
+			return
 		}
 		// no call left to inline: substitute single-definition pure locals
 		for _, sh := range shorts {
